@@ -10,14 +10,16 @@ Record flags := mkF {
   f_plan_abort : bool;        (* kml::execute: a planning error calls tx.abort() (discard_shells) *)
   f_refusal_discards : bool;  (* Transaction::commit: a failed commit check discards the shells *)
   f_dry_discards : bool;      (* Transaction::commit: a dry run discards the shells *)
-  f_ensure_staged : bool      (* ensure_proposition asks tx.staged_proposition before the unique index *)
+  f_ensure_staged : bool;     (* ensure_proposition asks tx.staged_proposition before the unique index *)
+  f_lookup_staging : bool     (* ... and staged_proposition walks the staging map (not just what the handles name) *)
 }.
 
 (* What a clause does to the transaction, abstracted to what matters for atomicity. *)
 Inductive clause :=
 | CCreate (kind key dig pay : Z) (ok : bool)   (* CREATE CONCEPT / EVIDENCE / ASSERTION / ACTIVITY ?h: the handle's shell is
                                                   minted in phase 1; applying validates ([ok]) and stages the final row *)
-| CEnsure (key dig : Z)                         (* ENSURE PROPOSITION of the tuple [key]: resolve or mint + stage *)
+| CEnsure (named : bool) (key dig : Z)          (* ENSURE PROPOSITION [?h] of the tuple [key] (named = it binds a handle; the ASSERT
+                                                  sugar always does): resolve or mint + stage *)
 | CTouch (id dig : Z) (changes ok : bool).      (* UPDATE / ARCHIVE / RETRACT ... of an existing element: load it, stage the new
                                                   row when something changes, fail when a guard does *)
 
@@ -25,11 +27,12 @@ Inductive clause :=
 Definition cpass (c : clause) : Z :=
   match c with
   | CCreate 1 _ _ _ _ => 0
-  | CEnsure _ _ => 1
+  | CEnsure _ _ _ => 1
   | _ => 2
   end.
 
-Record sg := mkSg { g_id : Z; g_row : elem; g_new : bool; g_changed : bool }.
+Record sg := mkSg { g_id : Z; g_row : elem; g_new : bool; g_changed : bool;
+                    g_named : bool   (* some handle of the block names this element *) }.
 
 Record txs := mkT {
   t_store : list elem;     (* the element collections, shells included *)
@@ -62,8 +65,10 @@ Fixpoint set_g (g : sg) (l : list sg) : list sg :=
   | x :: l => if g_id x =? g_id g then g :: l else x :: set_g g l
   end.
 
-Definition staged_tuple (key : Z) (l : list sg) : option sg :=
-  find (fun g => (e_kind (g_row g) =? 2) && (e_key (g_row g) =? key)) l.
+(* Transaction::staged_proposition: over the staging map, or (the seeded variant) only over the elements
+   the block's handles name *)
+Definition staged_tuple (f : flags) (key : Z) (l : list sg) : option sg :=
+  find (fun g => (e_kind (g_row g) =? 2) && (e_key (g_row g) =? key) && (f_lookup_staging f || g_named g)) l.
 
 Definition committed_tuple (key : Z) (store : list elem) : option elem :=
   find (fun e => (e_kind e =? 2) && (e_key e =? key) && negb (e_state e =? PENDING)) store.
@@ -72,18 +77,18 @@ Definition committed_tuple (key : Z) (store : list elem) : option elem :=
 Definition apply (f : flags) (t : txs) (co : clause * option Z) : option txs :=
   match co with
   | (CCreate kind key dig pay ok, Some id) =>
-      if ok then Some (mkT (t_store t) (set_g (mkSg id (mkE id kind 0 0 dig key pay) true true) (t_staged t)) (t_shells t) (t_next t))
+      if ok then Some (mkT (t_store t) (set_g (mkSg id (mkE id kind 0 0 dig key pay) true true true) (t_staged t)) (t_shells t) (t_next t))
       else None
   | (CCreate _ _ _ _ _, None) => None
-  | (CEnsure key dig, _) =>
-      match (if f_ensure_staged f then staged_tuple key (t_staged t) else None) with
+  | (CEnsure named key dig, _) =>
+      match (if f_ensure_staged f then staged_tuple f key (t_staged t) else None) with
       | Some _ => Some t
       | None =>
           match committed_tuple key (t_store t) with
           | Some _ => Some t
           | None =>
               let '(t1, id) := mint t 2 in
-              Some (mkT (t_store t1) (set_g (mkSg id (mkE id 2 0 0 dig key 0) true true) (t_staged t1)) (t_shells t1) (t_next t1))
+              Some (mkT (t_store t1) (set_g (mkSg id (mkE id 2 0 0 dig key 0) true true named) (t_staged t1)) (t_shells t1) (t_next t1))
           end
       end
   | (CTouch id dig changes ok, _) =>
@@ -91,9 +96,9 @@ Definition apply (f : flags) (t : txs) (co : clause * option Z) : option txs :=
       | None => None
       | Some e =>
           if e_state e =? PENDING then None else
-          let g := match find_g id (t_staged t) with Some g => g | None => mkSg id e false false end in
+          let g := match find_g id (t_staged t) with Some g => g | None => mkSg id e false false false end in
           let g' := if changes then mkSg id (mkE id (e_kind (g_row g)) (e_ver (g_row g)) (e_state (g_row g)) dig
-                                              (e_key (g_row g)) (e_pay (g_row g))) (g_new g) true else g in
+                                              (e_key (g_row g)) (e_pay (g_row g))) (g_new g) true (g_named g) else g in
           if ok then Some (mkT (t_store t) (set_g g' (t_staged t)) (t_shells t) (t_next t)) else None
       end
   end.
